@@ -899,7 +899,7 @@ func run(c *mon.Ctx) {
 	c.Watchdog(512<<20, 10*time.Second)
 	c.Floor("outcome.returned", 10000)
 	c.Floor("long_sections.driven", 300)
-	c.Floor("cost_scaling.comparisons", 12)
+	c.Floor("cost_scaling.comparisons", 16)
 	c.Floor("input.front_of_a_larger_buffer", 5000)
 
 	type format struct {
@@ -1283,6 +1283,11 @@ func run(c *mon.Ctx) {
 			"String()":     func(x scte35.SCTE35) { _ = x.String() },
 			"UpdateData()": func(x scte35.SCTE35) { x.UpdateData() },
 			"getters":      func(x scte35.SCTE35) { callAll("SCTE35", nil, x, 2) },
+			"decoding (NewSCTE35 on Data())": func(x scte35.SCTE35) {
+				for j := 0; j < 4; j++ {
+					scte35.NewSCTE35(append([]byte{0}, x.Data()...))
+				}
+			},
 		} {
 			cs, cl := cost(small, what), cost(large, what)
 			c.Eval(1)
